@@ -28,6 +28,7 @@ func checkC02(c *Ctx, r *Report) {
 	checkDMPlacement(c, r)
 	checkDMRegionSwitches(c, r)
 	checkDMBlockInterleave(c, r)
+	checkDMEccOrder(c, r)
 	// codeword-level agreement of the mode encoders with the bit-stream parser
 	checkDMAscii(c, r)
 	checkDMLatches(c, r)
@@ -35,6 +36,9 @@ func checkC02(c *Ctx, r *Report) {
 	checkDMX12Edifact(c, r)
 	checkDMTriples(c, r)
 	checkDMBase256(c, r)
+	checkDMMacros(c, r)
+	checkDMX12EOD(c, r)
+	checkPureAxis(c, r, [][2]string{{"datamatrix", "extractPureBits"}, {"datamatrix", "moduleSize"}})
 	// error discipline
 	runEDrop(c, r, []string{"datamatrix", "datamatrix/encoder", "datamatrix/decoder", "datamatrix/detector"}, 10)
 	nf := c.newNilFlow()
@@ -1034,4 +1038,241 @@ func foldWithBytesDecoder(c *Ctx, fd *ast.FuncDecl, p *packages.Package, args []
 		return nil, false
 	}
 	return c.rpfCall(fd, p, args, &h2)
+}
+
+// ---------------------------------------------------------------------------------------------------------------
+// S-DMMACRO, S-DMEOD
+// ---------------------------------------------------------------------------------------------------------------
+
+func checkDMMacros(c *Ctx, r *Report) {
+	r.Rule("S-DMMACRO", "EncodeHighLevel replaces an envelope by the macro codeword only when the text both starts with that macro's header and ends with the trailer (then: WriteCodeword(MACRO_0x), two characters skipped at the end, the cursor moved past the header), and the parser expands 236 / 237 to exactly those header and trailer strings", 3)
+	fd, p := c.funcDeclOf("datamatrix/encoder", "EncodeHighLevel")
+	if fd == nil {
+		r.AnchorLost("S-DMMACRO", "datamatrix/encoder.EncodeHighLevel", "function not found")
+		return
+	}
+	msgObj := paramObjs(p, fd)[0]
+	trailer, _ := strConst(c, "datamatrix/encoder", "HighLevelEncoder_MACRO_TRAILER")
+	for _, m := range []string{"05", "06"} {
+		key := "datamatrix/encoder.EncodeHighLevel/macro " + m
+		r.Analysed(key)
+		var site *ast.CallExpr
+		for _, call := range findCalls(p, fd.Body, func(o types.Object) bool { fn, ok := o.(*types.Func); return ok && fn.Name() == "WriteCodeword" }) {
+			if id, ok := call.Args[0].(*ast.Ident); ok && id.Name == "HighLevelEncoder_MACRO_"+m {
+				site = call
+			}
+		}
+		if site == nil {
+			r.Fail("S-DMMACRO", key, c.pos(fd.Pos()), "violation", "the macro codeword is never written")
+			continue
+		}
+		// the conditions under which the site is reached (this arm true)
+		gi, _ := guardsOf(fd.Body, enclosingStmt(fd.Body, site))
+		var conjuncts []ast.Expr
+		var collect func(e ast.Expr)
+		collect = func(e ast.Expr) {
+			e = ast.Unparen(e)
+			if be, ok := e.(*ast.BinaryExpr); ok && be.Op == token.LAND {
+				collect(be.X)
+				collect(be.Y)
+				return
+			}
+			// a boolean variable defined from an expression
+			if id := identObj(p, e); id != nil {
+				ast.Inspect(fd.Body, func(n ast.Node) bool {
+					if as, ok := n.(*ast.AssignStmt); ok && as.Tok == token.DEFINE && len(as.Lhs) == 1 && identObj(p, as.Lhs[0]) == id {
+						collect(as.Rhs[0])
+					}
+					return true
+				})
+				return
+			}
+			conjuncts = append(conjuncts, e)
+		}
+		var arm *ast.IfStmt
+		for _, e := range gi.Enclosing {
+			if ifs, ok := e.Node.(*ast.IfStmt); ok && e.Branch {
+				collect(ifs.Cond)
+				arm = ifs
+			}
+		}
+		hasPrefix, hasSuffix := false, false
+		for _, cj := range conjuncts {
+			call, ok := cj.(*ast.CallExpr)
+			if !ok || len(call.Args) != 2 || identObj(p, call.Args[0]) != msgObj {
+				continue
+			}
+			fn, _ := typeutil.Callee(p.TypesInfo, call).(*types.Func)
+			if fn == nil || fn.Pkg() == nil || fn.Pkg().Path() != "strings" {
+				continue
+			}
+			arg, _ := call.Args[1].(*ast.Ident)
+			if fn.Name() == "HasPrefix" && arg != nil && arg.Name == "HighLevelEncoder_MACRO_"+m+"_HEADER" {
+				hasPrefix = true
+			}
+			if fn.Name() == "HasSuffix" && arg != nil && arg.Name == "HighLevelEncoder_MACRO_TRAILER" {
+				hasSuffix = true
+			}
+		}
+		bad := ""
+		switch {
+		case !hasPrefix:
+			bad = "macro " + m + " is written without testing that the text starts with HighLevelEncoder_MACRO_" + m + "_HEADER"
+		case !hasSuffix:
+			bad = "macro " + m + " is written without testing that the text ends with the macro trailer: the last two characters are then dropped and the reader appends a trailer that was never there"
+		}
+		if bad == "" && arm != nil {
+			skip, adv := false, false
+			for _, call := range findCalls(p, arm.Body, func(o types.Object) bool { fn, ok := o.(*types.Func); return ok && fn.Name() == "SetSkipAtEnd" }) {
+				if v, isK := constInt(p, call.Args[0]); isK && v == int64(len(trailer)) {
+					skip = true
+				}
+			}
+			ast.Inspect(arm.Body, func(n ast.Node) bool {
+				if as, ok := n.(*ast.AssignStmt); ok && as.Tok == token.ADD_ASSIGN && len(as.Lhs) == 1 {
+					if sel, isS := as.Lhs[0].(*ast.SelectorExpr); isS && sel.Sel.Name == "pos" && strings.Contains(exprString(as.Rhs[0]), "HighLevelEncoder_MACRO_"+m+"_HEADER") {
+						adv = true
+					}
+				}
+				return true
+			})
+			if !skip || !adv {
+				bad = fmt.Sprintf("macro %s: trailer characters skipped at the end = %v (need %d), cursor moved past the header = %v", m, skip, len(trailer), adv)
+			}
+		}
+		r.Check(bad == "", "S-DMMACRO", key, c.pos(site.Pos()), bad)
+	}
+	// parser: strings equal the encoder's constants
+	key := "datamatrix/decoder.decodeAsciiSegment/macros"
+	r.Analysed(key)
+	bad := ""
+	for _, t := range []struct {
+		cw int64
+		m  string
+	}{{236, "05"}, {237, "06"}} {
+		header, okH := strConst(c, "datamatrix/encoder", "HighLevelEncoder_MACRO_"+t.m+"_HEADER")
+		if !okH {
+			bad = "?macro header constants not found"
+			break
+		}
+		res, _, err := foldParser(c, "decodeAsciiSegment", []int64{t.cw, 66, 129}, []*Val{emptyBytes(), emptyBytes(), {K: VNil}})
+		if err != nil {
+			bad = "?" + err.Error()
+			break
+		}
+		got, _ := listInts(res[1])
+		tr, _ := listInts(res[2])
+		if runesOf(got) != header+"A" || runesOf(tr) != trailer {
+			bad = fmt.Sprintf("codeword %d followed by 'A' is read as text %q with trailer %q; the writer removed header %q and trailer %q", t.cw, runesOf(got), runesOf(tr), header, trailer)
+		}
+	}
+	pos := ""
+	if dfd, _ := c.funcDeclOf("datamatrix/decoder", "decodeAsciiSegment"); dfd != nil {
+		pos = c.pos(dfd.Pos())
+	}
+	if bad != "" && bad[0] == '?' {
+		r.Undecided("S-DMMACRO", key, pos, bad[1:])
+	} else {
+		r.Check(bad == "", "S-DMMACRO", key, pos, bad)
+	}
+}
+
+func checkDMX12EOD(c *Ctx, r *Report) {
+	r.Rule("S-DMEOD", "x12HandleEOD leaves out the unlatch codeword only when the parser will leave X12 mode by itself - at most one codeword of the symbol remains and what is left of the text fits it (remaining characters, symbol space) in {(0,0), (1,1), (0,1)} - folded over message lengths, cursor positions, buffered characters and free codewords; the rewind of the buffered characters happens before the count is taken", 1)
+	fd, p := c.funcDeclOf("datamatrix/encoder", "x12HandleEOD")
+	key := "datamatrix/encoder.x12HandleEOD"
+	if fd == nil {
+		r.AnchorLost("S-DMEOD", key, "function not found")
+		return
+	}
+	r.Analysed(key)
+	ps := paramObjs(p, fd)
+	unlatch, _ := constValIn(c, "datamatrix/encoder", "HighLevelEncoder_X12_UNLATCH")
+	bad := ""
+	n := 0
+	for L := int64(0); L <= 6 && bad == ""; L++ {
+		for pos := int64(0); pos <= L && bad == ""; pos++ {
+			for count := int64(0); count <= 2 && count <= pos && bad == ""; count++ {
+				for avail := int64(0); avail <= 3 && bad == ""; avail++ {
+					n++
+					curPos := pos
+					var written []int64
+					const cw = 5
+					h := &rpf{}
+					h.selHook = func(rr *rpf, sel *ast.SelectorExpr) (*Val, bool) {
+						if sel.Sel.Name == "pos" {
+							return vint(curPos), true
+						}
+						return nil, false
+					}
+					h.stHook = func(rr *rpf, lhs ast.Expr, v *Val) bool {
+						if sel, ok := lhs.(*ast.SelectorExpr); ok && sel.Sel.Name == "pos" && v.K == VInt {
+							curPos = v.I
+							return true
+						}
+						return false
+					}
+					h.callHook = func(rr *rpf, call *ast.CallExpr, callee types.Object) (*Val, bool) {
+						fn, ok := callee.(*types.Func)
+						if !ok {
+							return nil, false
+						}
+						switch fn.Name() {
+						case "UpdateSymbolInfo":
+							return &Val{K: VNil}, true
+						case "GetSymbolInfo":
+							return &Val{K: VStruct, Fields: map[string]*Val{}}, true
+						case "GetDataCapacity":
+							return vint(cw + avail), true
+						case "GetCodewordCount":
+							return vint(cw + int64(len(written))), true
+						case "GetRemainingCharacters":
+							return vint(L - curPos), true
+						case "HasMoreCharacters":
+							return vbool(curPos < L), true
+						case "GetNewEncoding":
+							return vint(-1), true
+						case "SignalEncoderChange":
+							return &Val{K: VNil}, true
+						case "WriteCodeword":
+							v := rr.expr(call.Args[0])
+							written = append(written, v.I)
+							return &Val{K: VNil}, true
+						}
+						return errCtorHook(rr, call, callee)
+					}
+					buf := &Val{K: VList}
+					for i := int64(0); i < count; i++ {
+						buf.L = append(buf.L, vint(4))
+					}
+					res, err := c.rpfCall(fd, p, []*Val{{K: VNil}, buf}, h)
+					_ = ps
+					if err != nil {
+						bad = "?" + err.Error()
+						break
+					}
+					if len(res) != 1 || res[0].K != VNil {
+						continue // an error is never a wrong symbol
+					}
+					remaining := L - (pos - count)
+					wrote := false
+					for _, w := range written {
+						if w == unlatch {
+							wrote = true
+						}
+					}
+					if curPos != pos-count {
+						bad = fmt.Sprintf("message of %d characters, cursor %d, %d buffered: the cursor is left at %d, the buffered characters must be handed back (cursor %d)", L, pos, count, curPos, pos-count)
+						break
+					}
+					allowed := (remaining == 0 && avail == 0) || (remaining == 1 && avail == 1) || (remaining == 0 && avail == 1)
+					if !wrote && !allowed {
+						bad = fmt.Sprintf("message of %d characters, cursor %d, %d buffered, %d free codewords in the symbol: no unlatch is written although %d characters remain for %d free codewords - the parser stays in X12 mode and reads the following ASCII codewords as X12 pairs", L, pos, count, avail, remaining, avail)
+					}
+				}
+			}
+		}
+	}
+	r.Extra("x12_eod_states", n)
+	reportFold(r, c, "S-DMEOD", key, fd.Pos(), bad)
 }
